@@ -32,6 +32,19 @@ theorem PTDP_unpack_state_independent (t u : PTDP.State) (b rest : Bytes)
       · rename_i h1 h2; simp only [h1, h2, if_false, if_true] at h; cases h
       · rfl
 
+/-- non-vacuity: an object marked low-latency, holding another payload and length, decodes the encoding of a
+    three-byte PTDP followed by one more byte successfully -/
+example : ∃ (a t : PTDP.State) (b : Bytes), a.payload = [1, 2, 3] ∧ t.low_latency = true ∧ t.payload = [9] ∧
+    (PTDP.pack a).2 = .ok b ∧ (PTDP.unpack t (b ++ [0xAA])).2 = .ok [0xAA] := by
+  have h : PTDP_WF { PTDP.fresh with payload := [1, 2, 3], fragment := 3, content := 4 } := by simp [PTDP_WF]
+  refine ⟨{ PTDP.fresh with payload := [1, 2, 3], fragment := 3, content := 4 },
+    { PTDP.fresh with payload := [9], low_latency := true, length := 77 }, _, rfl, rfl, rfl,
+    by rw [ptdp_pack_eq _ h], ?_⟩
+  have := ptdp_unpack_noisy _ { PTDP.fresh with payload := [9], low_latency := true, length := 77 } h 0 0
+    (by decide) (by decide) wt_zero_le wt_zero_le [0xAA]
+  simp only [List.append_assoc] at this ⊢
+  rw [this]
+
 /-- on the failure paths the results agree as well (the state is then unspecified) -/
 theorem PTDP_unpack_result_state_independent (t u : PTDP.State) (b : Bytes) :
     (PTDP.unpack t b).2 = (PTDP.unpack u b).2 := by
@@ -59,5 +72,15 @@ theorem PTFR_unpack_state_independent (t u : PTFR.State) (b : Bytes) (ho : t.len
   simp only [PTFR.unpack, PTFR.setPayload, ho]
   repeat' split
   all_goals simp_all
+
+/-- non-vacuity: a frame object that holds an older (longer) payload decodes the encoding of a two-byte frame -/
+example : ∃ (a t : PTFR.State) (b : Bytes), a.payload = [9, 9] ∧ t.payload = [1, 2, 3] ∧ t.length = a.length ∧
+    (PTFR.pack a).2 = .ok b ∧ (PTFR.unpack t b).2 = .ok () := by
+  have h : PTFR_WF { PTFR.fresh with streamid := 1, llp := true, ptdp_offset := 0x7FF, length := 2, payload := [9, 9] } := by
+    simp [PTFR_WF, PTFR.fresh]
+  refine ⟨{ PTFR.fresh with streamid := 1, llp := true, ptdp_offset := 0x7FF, length := 2, payload := [9, 9] },
+    { PTFR.fresh with version := 3, ptdp_offset := 5, length := 2, payload := [1, 2, 3] }, _, rfl, rfl, rfl,
+    by rw [ptfr_pack_eq _ h], ?_⟩
+  rw [ptfr_unpack_noisy _ _ h 0 (by decide) wt_zero_le (by simp)]
 
 end Acra.Props.C13
